@@ -101,7 +101,8 @@ def run(pid, tier, seed):
         model_runs = [{"cfg": "AllocatorExh", "distinct": r.distinct, "generated": r.generated}]
         rejected = []   # (kind, cfgdesc, mt, mp, peers, history-lines)
         # 2. B1: replay every edge of the complete abstract graph on the real allocator
-        graphs = ["small", "peer>total", "three"] if tier == "quick" else list(GRAPH_CFGS)
+        # ("three-big" has tens of millions of edges: its replay does not fit in a run; it stays available for manual use)
+        graphs = ["small", "peer>total", "three"] if tier == "quick" else ["small", "peer>total", "mid", "three"]
         scales = SCALES_QUICK if tier == "quick" else SCALES_QUICK + [1000, (1 << 62) + 12345]
         n_edges = 0
         samples = []
